@@ -27,11 +27,43 @@ class Fx:
     def __init__(self, v):
         self.v = v % 3
         self._c = {}
+        self._snap = {}
 
     def _get(self, key, fn):
         if key not in self._c:
             self._c[key] = fn()
+            self._snap[key] = arrays_digest(self._c[key])
         return self._c[key]
+
+    def arr(self, name, fn):
+        """An input array owned by the fixture (snapshotted when created; see verify)."""
+        return self._get(("arr", name), fn)
+
+    def own(self, name, obj):
+        """Register an object built by a call (e.g. a configuration) so that its array attributes are watched too."""
+        key = ("obj", name, len(self._c))
+        self._c[key] = obj
+        self._snap[key] = arrays_digest(obj)
+        return obj
+
+    def verify(self):
+        """Names of fixture arrays / array attributes of fixture objects whose content differs from the snapshot taken
+        when they were created (inputs must be left untouched by every stochastic call)."""
+        bad = []
+        seen = set()                         # one report per array object (a configuration holds the fixture array)
+        for key in sorted(self._c, key=lambda k: (k[0] != "arr", str(k))):
+            val = self._c[key]
+            now = arrays_digest(val)
+            was = self._snap[key]
+            if now != was:
+                for f in sorted(set(now) | set(was)):
+                    if now.get(f) != was.get(f):
+                        arr = val if f == "" else getattr(val, "__dict__", {}).get("_" + f, getattr(val, "__dict__", {}).get(f))
+                        if id(arr) in seen:
+                            continue
+                        seen.add(id(arr))
+                        bad.append(f"{_keyname(key)}{'.' + f if f else ''}")
+        return bad
 
     # -- genomes ---------------------------------------------------------------
     def pg(self, n=4, lay=(2, 2)):
@@ -119,6 +151,39 @@ class Fx:
         return self._get(("prob", enc, nobj, n, k), build)
 
 
+OUTPUT_ATTRS = {"_xconfig"}          # attributes a stochastic call is supposed to overwrite
+
+
+def _adig(a):
+    if a.dtype == object:
+        return ("o", a.shape, tuple(repr(x) for x in a.ravel().tolist()))
+    return (a.dtype.str, a.shape, numpy.ascontiguousarray(a).tobytes())
+
+
+def arrays_digest(x):
+    """{attribute name: bit-exact digest} of an ndarray ('' key) or of every ndarray attribute of an object."""
+    if isinstance(x, numpy.ndarray):
+        return {"": _adig(x)}
+    out = {}
+    d = getattr(x, "__dict__", None)
+    if d:
+        for k in sorted(d):
+            if isinstance(d[k], numpy.ndarray) and k not in OUTPUT_ATTRS:
+                out[k.lstrip("_")] = _adig(d[k])
+    return out
+
+
+def _keyname(key):
+    if key[0] == "arr":
+        k = key[1]
+        if isinstance(k, tuple):          # ("xconfig_decn", enc, mate, tiling case)
+            k = f"{k[0]}[{k[1]}{'Mate' if k[2] else ''},{k[3]}]"
+        return f"input-array({k})"
+    if key[0] == "obj":
+        return str(key[1])
+    return str(key[0])
+
+
 def _first_latent(x, latent, **kw):
     return latent[:1]
 
@@ -158,40 +223,63 @@ def mk_pheno(fx, rng=None):
     return G_E_Phenotyping(fx.gm(4), nenv=2, nrep=numpy.array([2, 1]), var_env=0.5, var_rep=0.25, var_err=1.0, rng=rng)
 
 
+# decision vectors for the sampled configurations, in three tiling cases of ncross*nparent (= 4; mate: ncross = 2)
+# against len(xconfig_decn): "exact" (one complete set, no remainder), "multiple" (two complete sets), "ragged"
+TILING = ("exact", "multiple", "ragged")
 CFG_DECN = {
-    "Subset": lambda: numpy.array([0, 1, 3], dtype="int64"),
-    "Real": lambda: numpy.array([0.1, 0.4, 0.3, 0.2]),
-    "Integer": lambda: numpy.array([1, 0, 2, 1], dtype="int64"),
-    "Binary": lambda: numpy.array([1, 0, 1, 1], dtype="int64"),
+    "Subset": {"exact": [0, 1, 3, 2], "multiple": [3, 1], "ragged": [0, 1, 3]},
+    "Real": {"exact": [0.1, 0.4, 0.3, 0.2], "multiple": [0.25, 0.75], "ragged": [0.2, 0.5, 0.3]},
+    "Integer": {"exact": [1, 0, 2, 1], "multiple": [1, 1, 0, 0], "ragged": [2, 0, 1, 0]},
+    "Binary": {"exact": [1, 1, 1, 1], "multiple": [1, 0, 1, 0], "ragged": [1, 0, 1, 1]},
 }
 XMAP = numpy.array([[0, 1], [0, 2], [1, 3], [2, 3]], dtype="int64")
 CFG_MATE_DECN = {
-    "Subset": lambda: numpy.array([0, 2, 3], dtype="int64"),
-    "Real": lambda: numpy.array([0.1, 0.4, 0.3, 0.2]),
-    "Integer": lambda: numpy.array([1, 0, 2, 1], dtype="int64"),
-    "Binary": lambda: numpy.array([1, 0, 1, 1], dtype="int64"),
+    "Subset": {"exact": [0, 2], "multiple": [3], "ragged": [0, 2, 3]},
+    "Real": {"exact": [0.1, 0.4, 0.3, 0.2], "multiple": [0.0, 0.5, 0.5, 0.0], "ragged": [0.2, 0.5, 0.3, 0.0]},
+    "Integer": {"exact": [1, 0, 1, 0], "multiple": [0, 1, 0, 0], "ragged": [1, 0, 2, 0]},
+    "Binary": {"exact": [1, 0, 1, 0], "multiple": [0, 0, 1, 0], "ragged": [1, 0, 1, 1]},
 }
 
 
-def mk_cfg(fx, enc, rng=None, mate=False):
-    """Constructing a sampled configuration already draws (the constructor samples the first xconfig)."""
+def _decn(fx, enc, mate, case):
+    tab = (CFG_MATE_DECN if mate else CFG_DECN)[enc][case]
+    dt = float if enc == "Real" else "int64"
+    return fx.arr(("xconfig_decn", enc, mate, case), lambda: numpy.array(tab, dtype=dt))
+
+
+def mk_cfg(fx, enc, rng=None, mate=False, case="ragged"):
+    """Constructing a sampled configuration already draws (the constructor samples the first xconfig).  The decision
+    vector is a fixture array (watched by Fx.verify)."""
+    decn = _decn(fx, enc, mate, case)
     if mate:
         cls = getattr(importlib.import_module(f"pybrops.breed.prot.sel.cfg.{enc}MateSelectionConfiguration"),
                       f"{enc}MateSelectionConfiguration")
-        return cls(2, 2, 1, 2, fx.pg(), CFG_MATE_DECN[enc](), XMAP.copy(), rng)
+        return fx.own(cls.__name__, cls(2, 2, 1, 2, fx.pg(), decn, fx.arr("xmap", lambda: XMAP.copy()), rng))
     cls = getattr(importlib.import_module(f"pybrops.breed.prot.sel.cfg.{enc}SelectionConfiguration"),
                   f"{enc}SelectionConfiguration")
-    return cls(2, 2, 1, 2, fx.pg(), CFG_DECN[enc](), rng)
+    return fx.own(cls.__name__, cls(2, 2, 1, 2, fx.pg(), decn, rng))
 
 
-def use_cfg(fx, cfg):
-    first = cfg.xconfig.copy()
-    second = cfg.sample_xconfig(True)
-    return (first, numpy.array(second))
+def mk_cfgs(fx, enc, rng=None, mate=False):
+    """One configuration per tiling case."""
+    return [mk_cfg(fx, enc, rng, mate, case) for case in TILING]
+
+
+def use_cfgs(fx, cfgs):
+    """(xconfig sampled by the constructor, a second sample) per configuration."""
+    return tuple((numpy.array(c.xconfig), numpy.array(c.sample_xconfig(True))) for c in cfgs)
+
+
+def resample_cfgs(fx, cfgs):
+    """Two fresh samples per configuration: after re-seeding they consume the stream exactly like construction +
+    one sample did, so they must reproduce use_cfgs(mk_cfgs(...)) bit for bit."""
+    first = [numpy.array(c.sample_xconfig(True)) for c in cfgs]          # same draw order as mk_cfgs + use_cfgs
+    second = [numpy.array(c.sample_xconfig(True)) for c in cfgs]
+    return tuple(zip(first, second))
 
 
 def do_cfg(fx, enc, rng=None, mate=False):
-    return use_cfg(fx, mk_cfg(fx, enc, rng, mate))
+    return use_cfgs(fx, mk_cfgs(fx, enc, rng, mate))
 
 
 PYMOO_ALGOS = {
@@ -276,6 +364,20 @@ def do_select(fx, prot):
     return (cfg.xconfig, cfg.xconfig_decn)
 
 
+def do_sus(fx, f, rng):
+    a = fx.arr("sus.a", lambda: numpy.arange(5))
+    p = fx.arr("sus.p", lambda: numpy.array([0.1, 0.4, 0.3, 0.15, 0.05]))
+    return f(a, p, (2, 3), rng)
+
+
+def do_tiled(fx, f, rng):
+    """Sampling without replacement in the three tiling cases (size == len(a): one complete set and no remainder;
+    2 len(a); a ragged size), as 1-D and 2-D shapes, and with replacement."""
+    a = fx.arr("tiled.a", lambda: numpy.array([3, 0, 2, 1]))
+    return (f(a, 4, False, None, rng), f(a, (2, 2), False, None, rng), f(a, 8, False, None, rng),
+            f(a, 6, False, None, rng), f(a, (2, 2), True, None, rng))
+
+
 def mk_cmat(fx):
     from pybrops.popgen.cmat.DenseMolecularCoancestryMatrix import DenseMolecularCoancestryMatrix
     a = 2.0 + fx.v
@@ -287,10 +389,16 @@ def mk_cmat(fx):
 class Call:
     """One letter of the program alphabet.  make(fx) builds the (persistable) object that owns the stochastic
     method — or None; use(fx, obj) performs the stochastic call(s) with the library's *global* generator and returns
-    the outputs.  `site` names the library entry point for signatures."""
+    the outputs.  `site` names the library entry point for signatures.
 
-    def __init__(self, name, site, use, make=None, tier="core"):
+    For the repeat-after-re-seeding runs: round1(fx) -> (output, kept object) performs the call like use() on a freshly
+    made object; round2(fx, kept) performs the SAME stochastic call again on the same fixtures and — unless the object
+    carries a deterministic counter that legitimately changes its labels (reuse=False: mating protocols) — on the same
+    object.  `first`/`again` override the two rounds (configurations: construction samples, so round 2 re-samples)."""
+
+    def __init__(self, name, site, use, make=None, tier="core", reuse=True, first=None, again=None):
         self.name, self.site, self._use, self._make, self.tier = name, site, use, make, tier
+        self.reuse, self._first, self._again = reuse, first, again
 
     @property
     def persistent(self):
@@ -302,6 +410,17 @@ class Call:
     def use(self, fx, obj):
         return self._use(fx, obj)
 
+    def round1(self, fx):
+        if self._first:
+            return self._first(fx)
+        o = self.make(fx)
+        return self.use(fx, o), o
+
+    def round2(self, fx, kept):
+        if self._again:
+            return self._again(fx, kept)
+        return self.use(fx, kept if (self.reuse and kept is not None) else self.make(fx))
+
 
 def _alphabet():
     from pybrops.core.random import prng
@@ -312,10 +431,13 @@ def _alphabet():
         A.append(Call(*a, **k))
 
     # ---- core --------------------------------------------------------------
-    add("mate2", "TwoWayCross.mate", lambda fx, o: do_mate(fx, o, "TwoWayCross"), lambda fx: mate_cls("TwoWayCross")())
+    add("mate2", "TwoWayCross.mate", lambda fx, o: do_mate(fx, o, "TwoWayCross"), lambda fx: mate_cls("TwoWayCross")(),
+        reuse=False)
     add("pheno", "G_E_Phenotyping.phenotype", lambda fx, o: o.phenotype(fx.pg()), lambda fx: mk_pheno(fx))
-    add("cfg_subset", "SubsetSelectionConfiguration.sample_xconfig", lambda fx, o: do_cfg(fx, "Subset"))
-    add("cfg_real", "RealSelectionConfiguration.sample_xconfig", lambda fx, o: do_cfg(fx, "Real"))
+    add("cfg_subset", "SubsetSelectionConfiguration.sample_xconfig", lambda fx, o: do_cfg(fx, "Subset", None, False),
+        first=lambda fx: (lambda cs: (use_cfgs(fx, cs), cs))(mk_cfgs(fx, "Subset", None, False)), again=resample_cfgs)
+    add("cfg_real", "RealSelectionConfiguration.sample_xconfig", lambda fx, o: do_cfg(fx, "Real", None, False),
+        first=lambda fx: (lambda cs: (use_cfgs(fx, cs), cs))(mk_cfgs(fx, "Real", None, False)), again=resample_cfgs)
 
     def spawn1(fx, o):
         g = prng.spawn()
@@ -327,10 +449,8 @@ def _alphabet():
         return tuple(g.uniform(0, 1, 2) for g in gs) + (gs[1].permutation(5),)
     add("spawn1", "prng.spawn", spawn1)
     add("spawn2", "prng.spawn", spawn2)
-    add("sus", "stochastic_universal_sampling",
-        lambda fx, o: sampling.stochastic_universal_sampling(numpy.arange(5), numpy.array([0.1, 0.4, 0.3, 0.15, 0.05]), (2, 3)))
-    add("tiled", "tiled_choice",
-        lambda fx, o: (sampling.tiled_choice(numpy.arange(4), 6, False), sampling.tiled_choice(numpy.arange(4), (2, 2), True)))
+    add("sus", "stochastic_universal_sampling", lambda fx, o: do_sus(fx, sampling.stochastic_universal_sampling, None))
+    add("tiled", "tiled_choice", lambda fx, o: do_tiled(fx, sampling.tiled_choice, None))
 
     def shuffles(fx, o):
         a = numpy.arange(12).reshape(3, 4)
@@ -376,12 +496,16 @@ def _alphabet():
     # ---- extended (thorough tier, programs of length <= 2) ---------------------
     for nm in ("TwoWayDHCross", "ThreeWayCross", "ThreeWayDHCross", "FourWayCross", "FourWayDHCross", "SelfCross"):
         add("mate:" + nm, nm + ".mate", (lambda n_: lambda fx, o: do_mate(fx, o, n_))(nm),
-            (lambda n_: lambda fx: mate_cls(n_)())(nm), tier="ext")
-    add("cfg_integer", "IntegerSelectionConfiguration.sample_xconfig", lambda fx, o: do_cfg(fx, "Integer"), tier="ext")
-    add("cfg_binary", "BinarySelectionConfiguration.sample_xconfig", lambda fx, o: do_cfg(fx, "Binary"), tier="ext")
+            (lambda n_: lambda fx: mate_cls(n_)())(nm), tier="ext", reuse=False)
+    add("cfg_integer", "IntegerSelectionConfiguration.sample_xconfig", lambda fx, o: do_cfg(fx, "Integer", None, False),
+        first=lambda fx: (lambda cs: (use_cfgs(fx, cs), cs))(mk_cfgs(fx, "Integer", None, False)), again=resample_cfgs, tier="ext")
+    add("cfg_binary", "BinarySelectionConfiguration.sample_xconfig", lambda fx, o: do_cfg(fx, "Binary", None, False),
+        first=lambda fx: (lambda cs: (use_cfgs(fx, cs), cs))(mk_cfgs(fx, "Binary", None, False)), again=resample_cfgs, tier="ext")
     for enc in ("Subset", "Real", "Integer", "Binary"):
         add("cfgmate_" + enc.lower(), f"{enc}MateSelectionConfiguration.sample_xconfig",
-            (lambda e: lambda fx, o: do_cfg(fx, e, None, True))(enc), tier="ext")
+            (lambda e: lambda fx, o: do_cfg(fx, e, None, True))(enc),
+            first=(lambda e: lambda fx: (lambda cs: (use_cfgs(fx, cs), cs))(mk_cfgs(fx, e, None, True)))(enc),
+            again=resample_cfgs, tier="ext")
     for nm, (_, enc, nobj) in PYMOO_ALGOS.items():
         if nm in ("SubsetGeneticAlgorithm", "NSGA2SubsetGeneticAlgorithm"):
             continue
@@ -517,6 +641,8 @@ def copy_kinds(o):
     (__deepcopy__ -> copy.deepcopy, copy(), deepcopy()).  A generic copy.deepcopy of a class without its own
     __deepcopy__ clones the generator by python's default semantics; the library promises nothing there and it is
     only recorded (flag copy-unspecified:...)."""
+    if isinstance(o, list):
+        o = o[0]
     cls = type(o)
     kinds = ["copy.copy"]
     if _lib_defines(cls, "__deepcopy__"):
@@ -530,6 +656,8 @@ def copy_kinds(o):
 
 def do_copy(o, kind):
     import copy
+    if isinstance(o, list):
+        return [do_copy(x, kind) for x in o]
     if kind == "copy.copy":
         return copy.copy(o)
     if kind == "copy.deepcopy":
@@ -539,11 +667,13 @@ def do_copy(o, kind):
     return o.deepcopy()
 
 
-def _objrecipe(site, build, call):
-    """Recipe of a component that is an object owning a stochastic method: build(fx, rng) -> object, call(fx, o)."""
+def _objrecipe(site, build, call, recall=None, relabels=False):
+    """Recipe of a component that is an object owning a stochastic method: build(fx, rng) -> object, call(fx, o).
+    recall(fx, o): the stochastic call to be repeated on the same object with the generator put back to the same state
+    (default: call); relabels: the object carries a deterministic counter, so a repeated call legitimately differs."""
     def fn(fx, rng):
         return call(fx, build(fx, rng))
-    fn.build, fn.call = build, call
+    fn.build, fn.call, fn.recall, fn.relabels = build, call, recall or call, relabels
     return site, fn
 
 
@@ -553,7 +683,7 @@ def recipe(fullname, obj):
     short = fullname.rsplit(".", 1)[1]
     mod = fullname.rsplit(".", 1)[0]
     if mod.startswith("pybrops.breed.prot.mate.") and short in MATE:
-        return _objrecipe(short + ".mate", lambda fx, rng: obj(rng=rng), lambda fx, o: do_mate(fx, o, short))
+        return _objrecipe(short + ".mate", lambda fx, rng: obj(rng=rng), lambda fx, o: do_mate(fx, o, short), relabels=True)
     if mod in ("pybrops.breed.prot.mate.util", "pybrops.core.util.mate"):
         def fn(fx, rng):
             pg = fx.pg()
@@ -567,14 +697,16 @@ def recipe(fullname, obj):
     if mod.startswith("pybrops.breed.prot.sel.cfg."):
         for enc in ("Subset", "Real", "Integer", "Binary"):
             if short == f"{enc}SelectionConfiguration":
-                return _objrecipe(short + ".sample_xconfig", (lambda e: lambda fx, rng: mk_cfg(fx, e, rng))(enc), use_cfg)
+                return _objrecipe(short + ".sample_xconfig", (lambda e: lambda fx, rng: mk_cfgs(fx, e, rng))(enc), use_cfgs,
+                                  recall=resample_cfgs)
             if short == f"{enc}MateSelectionConfiguration":
-                return _objrecipe(short + ".sample_xconfig", (lambda e: lambda fx, rng: mk_cfg(fx, e, rng, True))(enc), use_cfg)
+                return _objrecipe(short + ".sample_xconfig", (lambda e: lambda fx, rng: mk_cfgs(fx, e, rng, True))(enc), use_cfgs,
+                                  recall=resample_cfgs)
     if mod == "pybrops.core.random.sampling":
         if short == "stochastic_universal_sampling":
-            return short, lambda fx, rng: obj(numpy.arange(5), numpy.array([0.1, 0.4, 0.3, 0.15, 0.05]), (2, 3), rng)
+            return short, lambda fx, rng: do_sus(fx, obj, rng)
         if short == "tiled_choice":
-            return short, lambda fx, rng: (obj(numpy.arange(4), 6, False, None, rng), obj(numpy.arange(4), (2, 2), True, None, rng))
+            return short, lambda fx, rng: do_tiled(fx, obj, rng)
         if short == "axis_shuffle":
             def fn(fx, rng):
                 a = numpy.arange(12).reshape(3, 4)
